@@ -41,7 +41,8 @@ def run(ctx):
     n = ctx.n(200, 2500)
     to = 900 if ctx.tier == "quick" else 3600
     h1 = vf.go_harness(ctx, "index", "TestVerifC10$", ["index/zz_verif_c10_test.go"], n, timeout=to, out_name="out1.jsonl")
-    h2 = vf.go_harness(ctx, "search", "TestVerifC10E2E$", ["search/zz_verif_c10e2e_test.go"], n, timeout=to, out_name="out2.jsonl")
+    # watchdog: corrupted postings can make searches spin; the e2e test is small, so a short timeout is a verdict, not a hiccup
+    h2 = vf.go_harness(ctx, "search", "TestVerifC10E2E$", ["search/zz_verif_c10e2e_test.go"], n, timeout=(420 if ctx.tier == "quick" else 2400), out_name="out2.jsonl")
     recs = h1["records"] + h2["records"]
     for name, h in (("TestVerifC10", h1), ("TestVerifC10E2E", h2)):
         if h["rc"] != 0:
